@@ -23,6 +23,14 @@ type Placement struct {
 	DAHeight uint64 `json:"da_height"`
 }
 
+// Backlog describes a run of duplicate header blobs on the DA layer.
+type Backlog struct {
+	Off       int    `json:"off"`
+	Copies    int    `json:"copies"`
+	PerHeight int    `json:"per_height"`
+	At        uint64 `json:"at"`
+}
+
 // OpB is one step of the real-ingress driver.
 type OpB struct {
 	// Kind: da-advance | p2p-headers | p2p-data | tick | restart | crash
@@ -42,6 +50,10 @@ type ScenarioB struct {
 	// ExecMs: how long the full node's execution layer takes per block (virtual time). With a slow
 	// execution layer a restart finds the sync loop busy and events still queued in its channels.
 	ExecMs int `json:"exec_ms,omitempty"`
+	// Backlog: Copies duplicates of the header blob of block Off sit on the DA layer, PerHeight per DA
+	// height starting at DA height At; every placement at or above At moves up behind them. With a slow
+	// execution layer the duplicates fill the sync event channel while later, needed blobs are scanned.
+	Backlog *Backlog `json:"backlog,omitempty"`
 	// Repeat runs the scenario several times: the order in which the sync loop picks queued header
 	// and data events is chosen by the Go runtime (select), not by the scenario.
 	Repeat int `json:"repeat,omitempty"`
@@ -117,7 +129,12 @@ type BRun struct {
 	DAStar  uint64 // largest h such that every block <= h has its header (and non-empty data) on the DA layer
 	Labels  []string
 	Trivial bool
+	// placements as effective on the DA double (after a backlog shifted them)
+	placements []Placement
 }
+
+// Placements returns the effective DA placements of the genuine blobs.
+func (r *BRun) Placements() []Placement { return r.placements }
 
 func copyData(d *types.Data) *types.Data {
 	b, _ := d.MarshalBinary()
@@ -151,7 +168,27 @@ func runB(sc ScenarioB, dir, id string, step func(r *BRun, when string) *world.P
 		r := &BRun{Sc: sc, C: c}
 		hdrOnDA := map[int]bool{}
 		dataOnDA := map[int]bool{}
-		for _, pl := range sc.Placements {
+		placements := sc.Placements
+		if bl := sc.Backlog; bl != nil && bl.Copies > 0 && bl.PerHeight > 0 && bl.Off < len(c.Blocks) {
+			k := uint64((bl.Copies + bl.PerHeight - 1) / bl.PerHeight)
+			placements = make([]Placement, len(sc.Placements))
+			for i, pl := range sc.Placements {
+				if pl.DAHeight >= bl.At {
+					pl.DAHeight += k
+				}
+				placements[i] = pl
+			}
+			for i := 0; i < bl.Copies; i++ {
+				h := bl.At + uint64(i/bl.PerHeight)
+				da.Inject(h, c.Blocks[bl.Off].HeaderBlob)
+				if h > r.MaxDA {
+					r.MaxDA = h
+				}
+			}
+			r.Labels = append(r.Labels, "backlog-of-duplicates")
+		}
+		r.placements = placements
+		for _, pl := range placements {
 			b := c.Blocks[pl.Off]
 			if pl.Kind == "header" {
 				da.Place(pl.DAHeight, b.HeaderBlob)
@@ -255,6 +292,9 @@ func runB(sc ScenarioB, dir, id string, step func(r *BRun, when string) *world.P
 		growH(len(c.Blocks))
 		growD(len(c.Blocks))
 		f.Tick(len(c.Blocks) + int(r.MaxDA) + 6 + len(c.Blocks)*(sc.ExecMs/2000+1))
+		if sc.Backlog != nil {
+			f.Tick(10 + sc.ExecMs/1000)
+		}
 		select {
 		case f.N.M.VerifDAIncluderCh() <- struct{}{}:
 		default:
